@@ -59,6 +59,13 @@ def run_cases(ctx, flavour, lines, chunk=500, timeout=900, tz="UTC", jobs=None, 
         if rc == 0 and complete:
             _parse(out, results)
             continue
+        if len(chunks[n]) == 1:
+            # a chunk of one case needs no localisation: the case is the culprit
+            ln = chunks[n][0]
+            e = err.decode("utf-8", "replace") if isinstance(err, bytes) else err
+            kind = "timeout" if rc == "timeout" else (core.sanitizer_kind(e) or "crash:rc=%s" % rc)
+            crashes.append((ln.split()[1], ln, kind, e[-3000:]))
+            continue
         # crash / abort / timeout inside the chunk: localise with per-line flushing
         pending = list(chunks[n])
         guard = 0
